@@ -42,6 +42,8 @@ POSITIONS = {
     "set_comp": "v = {{E} for k in v}", "dict_comp_key": "v = {{E}: k for k in v}", "comp_second_iter": "v = [k for j in v for k in {E}]", "comp_two_ifs": "v = [k for k in v if k if {E}]",
     "string_format_call": "v = \"{}\".format({E})", "percent_format": "v = \"%s\" % {E}", "matmul": "v = v @ {E}", "in_operator": "v = 1 in {E}", "is_operator": "v = {E} is None",
     # positions reported by a fourth-round reviewer of the unchanged tree
+    "fstring_concat_second": "v = \"text \" f\"{{E}}\"", "fstring_concat_third": "v = (\"a \"\n{I}     \"b \"\n{I}     f\"{{E}}\")", "fstring_concat_first": "v = f\"{{E}}\" \" tail\"",
+    "fstring_concat_raw_first": "v = r\"a\\d \" f\"{{E}} x\"",
     "subscript_tuple": "v = v[0, {E}]", "expr_tuple_stmt": "1, {E}", "subscript_tuple_target": "v[{E}, 0] = 1",
     "global_then_use": "global G\n{I}G = {E}", "nonlocal_free": "w = [{E}][0]", "return_parenthesised": "return ({E})", "return_await_free": "return [{E}, 2][0]",
 }
@@ -87,7 +89,7 @@ def gen_class(rng, idx, positions=None):
             else:
                 a = rng.choice(attrs)
                 expr, attr = "self.%s" % a, "self.%s" % a
-            if pos not in TARGET_POSITIONS + ("fstring", "fstring_spec", "fstring_nested"):
+            if pos not in TARGET_POSITIONS + ("fstring", "fstring_spec", "fstring_nested", "fstring_concat_second", "fstring_concat_third", "fstring_concat_first", "fstring_concat_raw_first"):
                 while rng.random() < 0.35:
                     w = rng.choice(WRAPS)
                     if '"' in w and '"' in expr:
@@ -243,6 +245,18 @@ def run(tier, seed, replay=None):
     srcs.append("class Dup:\n    @property\n    def x(self, v=None):\n        return self._a\n\n    @x.setter\n    def x(self, v=None):\n        self._b = v\n\n"
                 "    def uses_a(self, v=None):\n        return self._a\n\n    def uses_b(self, v=None):\n        return self._b\n")
     tags.append(("dup-method-name", "", ""))
+    # classes that CONTAIN a class with methods (same method names on both levels, attributes shared by name only): the methods of the inner class are not
+    # methods of the outer one, and vice versa
+    srcs.append("class Pipeline:\n    def __init__(self, v=None):\n        self.stages = []\n\n    def add(self, v=None):\n        self.stages.append(v)\n\n"
+                "    def execute(self, v=None):\n        return self.stages\n\n    class Stage:\n        def __init__(self, v=None):\n            self.name = v\n\n"
+                "        def run(self, v=None):\n            return self.name\n\n        def transform(self, v=None):\n            return self.other\n")
+    tags.append(("nested-class-methods", "", ""))
+    srcs.append("class Outer:\n    class Meta:\n        def label(self, v=None):\n            return self.x\n\n    def a(self, v=None):\n        return self.x\n\n"
+                "    def b(self, v=None):\n        return self.y\n\n    class Cfg:\n        def a(self, v=None):\n            return self.y\n")
+    tags.append(("nested-class-methods", "", ""))
+    srcs.append("class Holder:\n    def only(self, v=None):\n        return self.p\n\n    class Inner:\n        def first(self, v=None):\n            return self.p\n\n"
+                "        def second(self, v=None):\n            return self.q\n")
+    tags.append(("nested-class-methods", "", ""))
     for i in range(nrand):
         # random classes are built from the positions that are NOT registered as lost (each of those is run on its own in the matrix and printed as a
         # KNOWN-FINDING there): a random class mixing a lost position with others could not be attributed
